@@ -6,6 +6,9 @@ import PyCraft.Drive.Cfb8
 import PyCraft.Drive.Dispatch
 import PyCraft.Drive.Negotiate
 import PyCraft.Drive.Frame
+import PyCraft.Drive.Trackers
+import PyCraft.Drive.Login
+import PyCraft.Drive.Play
 /-!
 Line-protocol driver over the executable definitions of the models.  One request per line, tokens
 separated by single spaces, byte strings hex-encoded (`-` = empty).  One canonical reply per line.
@@ -13,7 +16,7 @@ Anything unparsable yields `bad-op` (never a default value).
 -/
 open PyCraft PyCraft.Drive
 
-def handlers : List (List String → Option String) := [varint, mchash, position, auth, cfb8, dispatch, negotiate, Drive.frame]
+def handlers : List (List String → Option String) := [varint, mchash, position, auth, cfb8, dispatch, negotiate, Drive.frame, trackers, login, play]
 
 def handle (toks : List String) : String :=
   match handlers.findSome? (· toks) with
